@@ -113,6 +113,18 @@ class World:
                         t.decl().name().startswith("comp!") and
                         self._comp_has_filter(t.decl().name())) else None
                     continue
+                if isinstance(a, tuple) and a[0] == "rev":
+                    # Lean: length_reverseAux'' / reverseAux_nil_iff
+                    t = a[1]
+                    if ("r", t.get_id()) in seen:
+                        continue
+                    seen.add(("r", t.get_id()))
+                    x, y = t.arg(0), t.arg(1)
+                    out.append(S.len_l(t) == S.len_l(x) + S.len_l(y))
+                    out.append(S.len_l(x) >= 0)
+                    out.append(S.len_l(y) >= 0)
+                    out.append(S.is_nil(t) == z3.And(S.is_nil(x), S.is_nil(y)))
+                    continue
                 if isinstance(a, tuple) and a[0] == "nth":
                     # all_list P l  and  0 <= i < len l   ==>   P (nth l i)   for P = grammar
                     # well-formedness of a list field (Lean: all_nth in FuncAdlLemmas.lean)
@@ -1072,7 +1084,16 @@ class Exec:
                 kw["**"] = self.ev(k.value, env)
             else:
                 kw[k.arg] = self.ev(k.value, env)
-        return self.call(f, argv, kw, e, env)
+        self._inplace_generic = False
+        r = self.call(f, argv, kw, e, env)
+        if getattr(self, "_inplace_generic", False) and isinstance(e.func, ast.Attribute) and \
+                e.func.attr == "generic_visit" and e.args and isinstance(e.args[-1], ast.Name) \
+                and e.args[-1].id in env and isinstance(r, Z):
+            # NodeTransformer.generic_visit mutates its argument in place and returns that same
+            # object: the caller's variable now denotes the visited node as well
+            env[e.args[-1].id] = r
+        self._inplace_generic = False
+        return r
 
     def list_mutation(self, e, env):
         """x.append(v) & co. on a Python list: functional update of the location holding it
